@@ -29,10 +29,32 @@ fn summary(list: &[ProposalInfo<Proposal>]) -> Vec<String> {
     v
 }
 
-pub fn on_commit_built(w: &mut World, _p: usize, _g: usize, id: u64, unused: &[ProposalInfo<Proposal>]) {
-    if w.cfg.oracle("proposal-agreement") {
-        w.ext.c10_unused.insert(id, summary(unused));
+pub fn on_commit_built(w: &mut World, p: usize, _g: usize, id: u64, unused: &[ProposalInfo<Proposal>]) -> VResult<()> {
+    if !w.cfg.oracle("proposal-agreement") {
+        return Ok(());
     }
+    let sum = summary(unused);
+    // every cached proposal that is invalid by construction (a template) must have been dropped, i.e. reported unused
+    let refs = w.msgs[&id].refs.clone();
+    for r in refs {
+        let pm = w.msgs[&r].clone();
+        if !matches!(pm.pspec, Some(PropSpec::Template { .. })) || pm.private {
+            continue;
+        }
+        let Some(l) = crate::c13::public_layout(&pm.bytes) else { continue };
+        let h = crate::world::short_hash(&pm.bytes[l.body_start..l.content_end]);
+        w.stats.check("invalid-by-reference-proposal-reported-unused");
+        if !sum.iter().any(|s| s.ends_with(&format!("|{h}"))) {
+            return Err(viol(
+                w,
+                "invalid-by-reference-dropped",
+                format!("invalid-by-reference-not-dropped:{:?}", pm.pspec),
+                format!("P{p} built commit {id} with the invalid cached proposal {r} ({:?}) and did not report it as unused", pm.pspec),
+            ));
+        }
+    }
+    w.ext.c10_unused.insert(id, sum);
+    Ok(())
 }
 
 /// applied / unused proposals reported by a member that processed (or applied) commit `cid`
@@ -359,7 +381,7 @@ pub fn do_forge(w: &mut World, s: usize, g: usize, template: u64, q: usize) -> V
     let victim = others.get(q % others.len().max(1)).copied();
     let mut r = crate::prng::Prng::new(crate::prng::mix(&[w.seed, w.step_no as u64, 0xf0f]));
     // proposals by value
-    let (props, name, rule_expected): (Vec<Vec<u8>>, &str, bool) = match template % 10 {
+    let (props, name, rule_expected): (Vec<Vec<u8>>, &str, bool) = match template % 12 {
         0 => {
             // sanity: one valid Add - must pass every rule and fail only at the (random) confirmation tag
             let banned = w.cfg.knob("banned").map(|_| w.parties.len() - 1);
@@ -391,6 +413,26 @@ pub fn do_forge(w: &mut World, s: usize, g: usize, template: u64, q: usize) -> V
         6 => {
             let beyond = rec.roster.iter().map(|(i, _, _)| *i).max().unwrap_or(0) + 7;
             (vec![enc_remove(beyond)], "remove-non-member", true)
+        }
+        10 => {
+            // an Add whose key package expired a second ago
+            let banned = w.cfg.knob("banned").map(|_| w.parties.len() - 1);
+            let outsider = (0..w.parties.len()).find(|p| {
+                matches!(w.mem_ref(*p, g).map(|m| m.status.clone()).unwrap_or(Status::Never), Status::Never)
+                    && !w.parties[*p].crashed
+                    && Some(*p) != banned
+                    && !rec.roster.iter().any(|(_, id, _)| *id == w.parties[*p].name)
+            });
+            let Some(o) = outsider else { return Ok(false) };
+            let at = mls_rs::time::MlsTime::from(w.clock.saturating_sub(365 * 24 * 3600 + 1));
+            let Some(kp) = w.gen_key_package_at(o, at)? else { return Ok(false) };
+            (vec![enc_add(&kp)], "add-expired-key-package", true)
+        }
+        11 => {
+            // ExternalInit belongs in an external commit of a new member, never in a member's commit
+            let mut v = vec![0u8, 6];
+            put_vec(&mut v, &r.bytes(32));
+            (vec![v], "external-init-from-member", true)
         }
         9 => {
             // a ReInit on its own is a valid proposal set: the commit must get as far as the (random) confirmation
